@@ -36,7 +36,7 @@ ASSUMPTIONS = [
     "(dds.set_store docstring); its literal location is not asserted",
 ]
 
-FORMS = ["abs", "rel", "rel_dotdot", "trailing", "nested", "symlink", "symlink_deep", "preexisting", "otherfs"]
+FORMS = ["abs", "rel", "rel_dotdot", "trailing", "nested", "symlink", "symlink_deep", "preexisting", "otherfs", "prefixname"]
 OTHER_FS = "/dev/shm"   # a second file system, when the machine has one that is writable (else the form falls back to "abs")
 CACHES = [None, False, True, 0, -1, 2]
 
@@ -97,6 +97,10 @@ def location(base, name, form, cwd):
             return p, p
         p = os.path.join(OTHER_FS, "vf-c16-" + common.chash(base), name)
         return p, p
+    if form == "prefixname":
+        # a sibling whose name merely starts with the name of the other directory of the store (<base>/int and <base>/int_dataA)
+        p = os.path.join(base, "int" if name == "int" else "int_" + name)
+        return p, p
     if form == "preexisting":
         p = os.path.join(base, "pre_" + name)
         os.makedirs(p, exist_ok=True)
@@ -113,7 +117,15 @@ class P(object):
         self.prog = prog
 
     def set_store(self, internal, data, cache):
-        return self.w.call("set_store", kind="local", internal=internal, data=data, cache=cache, raw=True)   # no observing wrapper: set_store sees its own store objects
+        # no observing wrapper: set_store sees its own store objects
+        try:
+            return self.w.call("set_store", kind="local", internal=internal, data=data, cache=cache, raw=True)
+        except common.HarnessError as e:
+            if "DDSException" in str(e) or "Error" in str(e).splitlines()[-1]:
+                # the configuration is usable (the harness created / can create the directories): a refusal is a violation
+                raise Violation(f"set_store('local', internal_dir={internal!r}, data_dir={data!r}, cache_objects={cache!r}) failed: {str(e).strip().splitlines()[-1][:300]}",
+                                {"set_store_failed": [internal, data, repr(cache)]})
+            raise
 
     def eval(self, root):
         f = self.prog["funcs"][root]
@@ -265,6 +277,10 @@ def check_case(case, ev=None, scratch=None):
                      "program": c01.slim({"prog": prog, "store": None, "steps": []})["program"]}, nt,
                     features=["internal:" + case["iform"], "data:" + case["dform"], "cache:" + repr(case["cache"])] + (["kept>=1"] if kept_names else []),
                     key=[M.pkey(prog), case["iform"], case["dform"], repr(case["cache"]), case["edit"]])
+    except Violation as v_:
+        if isinstance(v_.case, dict) and "set_store_failed" in v_.case:
+            raise Violation(v_.msg, case)   # the replay file must carry the generated case
+        raise
     finally:
         for p in procs:
             p.close()
